@@ -381,6 +381,7 @@ func ruleR15c(h *H) {
 			}
 			i++
 			good := false
+			bad := "a primary key can be returned for an iterator position that was not checked to lie inside the requested index: the walk over the whole key space leaks records of neighbouring indexes"
 			for _, g := range ir.Guards(in) {
 				cond, taken := g.Cond, g.Taken
 				for {
@@ -404,11 +405,14 @@ func ruleR15c(h *H) {
 				})
 				fromIndexName := ir.DependsOn(call.Call.Args[1], func(x ssa.Value) bool { return isMsgField(x, "GetRequest", "SecondaryIndexName") })
 				if fromIter && fromIndexName {
-					good = true
+					if ok, w := indexPrefixTerminated(h, call.Call.Args[1]); ok {
+						good = true
+					} else {
+						bad = w
+					}
 				}
 			}
-			h.Verdict(good, rule, fmt.Sprintf("index get return #%d in %s", i, ir.FuncName(fn)), h.pos(in), "guarded by HasPrefix(iterator key, requested index prefix)",
-				"a primary key can be returned for an iterator position that was not checked to lie inside the requested index: the walk over the whole key space leaks records of neighbouring indexes")
+			h.Verdict(good, rule, fmt.Sprintf("index get return #%d in %s", i, ir.FuncName(fn)), h.pos(in), "guarded by HasPrefix(iterator key, requested index prefix ending in the delimiter that follows the index name in stored keys)", bad)
 		})
 	}
 	if n == 0 {
@@ -488,4 +492,47 @@ func ruleR15d(h *H) {
 		sort.Strings(missing)
 		h.Verdict(len(missing) == 0 && len(declared) > 0, rule, "comparison switch of "+ir.FuncName(fn), h.P.Pos(fn.Pos()), fmt.Sprintf("%d comparison types handled", len(declared)), "comparison types without a case in the index get: "+strings.Join(missing, ", "))
 	}
+}
+
+// indexPrefixTerminated: the symbolic value of the membership prefix is
+// <literal head of the write format> <index name> <delimiter...>: the index name must be
+// closed by the delimiter that follows it in stored keys, otherwise an index whose name
+// merely starts with the requested name passes the prefix test.
+func indexPrefixTerminated(h *H, prefix ssa.Value) (bool, string) {
+	keyFn := indexKeyFn(h)
+	if keyFn == nil {
+		return false, "index key function not found"
+	}
+	W := ""
+	ir.Instrs(keyFn, func(in ssa.Instruction) {
+		if c := ir.CallOf(in); c != nil {
+			if f := c.StaticCallee(); f != nil && f.Name() == "Sprintf" && f.Pkg != nil && f.Pkg.Pkg.Path() == "fmt" {
+				if k, ok := c.Args[0].(*ssa.Const); ok && k.Value != nil {
+					W = constString(k)
+				}
+			}
+		}
+	})
+	first := strings.Index(W, "%s")
+	if first < 0 || first+2 >= len(W) {
+		return false, "cannot read the layout of stored index keys"
+	}
+	head, delim := W[:first], W[first+2:first+3]
+	parts, ok := ir.SymString(prefix)
+	if !ok {
+		return false, "cannot evaluate the membership prefix symbolically"
+	}
+	for i, p := range parts {
+		if p.Val == nil || !ir.DependsOn(p.Val, func(x ssa.Value) bool { return isMsgField(x, "GetRequest", "SecondaryIndexName") }) {
+			continue
+		}
+		if i == 0 || parts[i-1].Val != nil || parts[i-1].Lit != head {
+			return false, fmt.Sprintf("the membership prefix does not start with %q, the head of stored index keys", head)
+		}
+		if i+1 >= len(parts) || parts[i+1].Val != nil || !strings.HasPrefix(parts[i+1].Lit, delim) {
+			return false, fmt.Sprintf("the membership prefix ends with the index name without the %q that follows it in stored keys: entries of any index whose name starts with the requested name pass the test and are returned", delim)
+		}
+		return true, ""
+	}
+	return false, "the membership prefix does not contain the requested index name"
 }
